@@ -16,11 +16,11 @@ from concurrent.futures import ThreadPoolExecutor
 HERE = os.path.dirname(os.path.abspath(__file__))
 
 
-def run_one(m, suite=False):
+def run_one(m, suite=False, src='/repo'):
     tmp = tempfile.mkdtemp(prefix='asemut.')
     try:
         root = os.path.join(tmp, 'repo')
-        subprocess.run(['rsync', '-a', '--exclude', 'target', '--exclude', '.git', '/repo/', root + '/'], check=True)
+        subprocess.run(['rsync', '-a', '--exclude', 'target', '--exclude', '.git', '--exclude', 'SEED', src.rstrip('/') + '/', root + '/'], check=True)
         edits = m.get('edits') or [dict(file=m['file'], find=m['find'], replace=m['replace'])]
         for e in edits:
             fp = os.path.join(root, e['file'])
